@@ -41,7 +41,7 @@ def task(W, payload):
         prog = Gen(r, Opts(max_strats=2, max_flows=4, n_requests=2, force_strat=True, split_bias=0.95, inexact_split_bias=0.5, param_split_all_bias=0.7,
                            allow_param_split=False, allow_mixing=False)).program()
     else:
-        prog = Gen(r, Opts(max_strats=2, max_flows=5, n_requests=4, mixing_pair_bias=0.25)).program()
+        prog = Gen(r, Opts(max_strats=2, max_flows=5, n_requests=4, mixing_pair_bias=0.7, force_infection=True)).program()
     out = mk_out(prog)
     ops = prog["build"]; params = prog["params"]
     pf = {k: float(Fr(v)) for k, v in params.items()}
